@@ -1,6 +1,7 @@
 import ProductMD.Proofs.C05Images
 import ProductMD.Proofs.C05Rpms
 import ProductMD.Proofs.C05CI
+import ProductMD.Proofs.C05TreeInfo
 import ProductMD.Properties.C03
 import ProductMD.Properties.C02
 import ProductMD.Properties.C09
@@ -325,5 +326,115 @@ theorem C05_ci_legacy_depth3_refused_witness :
     ∧ Legacy.legacyHead k%"A-B-C" = some k%"A-B" := by decide +kernel
 
 end ComposeInfo
+
+/-! ## treeinfo -/
+section TreeInfo
+open PM.TI PM.Ini
+
+/-- **which reader for which version** (generated gates; every class consults its own gate):
+no header / 0.0 — every class takes its pre-productmd reader, paths are fixed up, no header type is asked for -/
+theorem C05_ti_gates_0_0 : TI.Legacy.selsOf (0, 0) = .ok
+    { headerTyped := false, release := .v00, tree00 := true, variants00 := true, paths := .v00, addonFallback := false,
+      variant := .v00, fixImages := true, fixStage2 := true, fixChecksums := true, media00 := true } :=
+  TI.Legacy.selsOf_0_0
+
+/-- … every version `v ≠ (0, 0)` with `v ≤ (0, 3)` (0.1, 0.2, 0.3): `[product]`, the 0.3 variant and path readers, the
+current tree / media / checksum readers, no path fix-up, no header type -/
+theorem C05_ti_gates_le_0_3 (v : Nat × Nat) (h0 : (v == (0, 0)) = false) (h3 : PM.verLe v (0, 3) = true) :
+    TI.Legacy.selsOf v = .ok
+    { headerTyped := false, release := .v03, tree00 := false, variants00 := false, paths := .v03, addonFallback := false,
+      variant := .v03, fixImages := false, fixStage2 := false, fixChecksums := false, media00 := false } :=
+  TI.Legacy.selsOf_le_0_3 v h0 h3
+
+/-- … every version `v > (0, 3)` (0.4 … 0.9, 1.0, 1.1, 1.2, 2.0): the current readers throughout; the header type is
+demanded exactly from 1.1 on -/
+theorem C05_ti_gates_gt_0_3 (v : Nat × Nat) (h3 : PM.verLt (0, 3) v = true) :
+    TI.Legacy.selsOf v = .ok { TI.Legacy.Sels.current with headerTyped := PM.verLe (1, 1) v } :=
+  TI.Legacy.selsOf_gt_0_3 v h3
+
+/-- **loaded is normal (partial: per section)** — whatever header version the file had, or none: the object carries the
+current header version and its release, tree, variants container, checksums, images, stage2 and media objects passed
+their (generated) validators.  Not proved in Lean: validity of every *variant* below the container against its parent
+(the reader does run `add`'s validation on each; stating it needs the forest invariant), and the reader half of C04. -/
+theorem C05_ti_loaded_is_normal_partial (fo : FloatOracle) (d : Ini) (t : TreeInfo) (h : TI.Legacy.deserialize fo d = .ok t) :
+    t.headerVersion = TI.currentVersion
+    ∧ validateClass "treeinfo.Release" (releaseObj t.release t.isLayered) = .ok ()
+    ∧ validateClass "treeinfo.Tree" (treeObj t.tree) = .ok ()
+    ∧ validateClass "treeinfo.Variants" (variantsObj t.variants) = .ok ()
+    ∧ validateClass "treeinfo.Checksums" (checksumsObj t.checksums) = .ok ()
+    ∧ validateClass "treeinfo.Images" (imagesObj t.images t.tree.platforms) = .ok ()
+    ∧ validateClass "treeinfo.Stage2" (stage2Obj t.mainimage t.instimage) = .ok ()
+    ∧ validateClass "treeinfo.Media" (mediaObj t.discnum t.totaldiscs) = .ok () :=
+  TI.Legacy.deserialize_sections_valid fo d t h
+
+/-- float oracle that is exact on integer texts (the witnesses below use integer timestamps) -/
+def intOracle : FloatOracle := ⟨Str.pyInt, fun s => .ok s⟩
+def iniSec (n : String) (kv : List (String × String)) : Str × IniSec := (n.toList, kv.map fun p => (p.1.toList, p.2.toList))
+
+/-- load (any version), write, parse the written text, load, write -/
+def tiUpgradeCycle (d : Ini) : Except Err (TreeInfo × Ini × TreeInfo × Ini) := do
+  let t ← TI.Legacy.deserialize intOracle d
+  let d1 ← TI.serialize t none
+  let d1' ← IniText.parse (IniText.render d1)
+  let t2 ← TI.Legacy.deserialize intOracle d1'
+  let d2 ← TI.serialize t2 none
+  pure (t, d1, t2, d2)
+
+def vsum : Variant → List (Str × Str × List (Str × Str) × List Str)
+  | .mk _ _ uid _ type paths kids => [(uid, type, paths, kids.map Variant.uid)]
+
+/-- a 0.3 file: `[product]`, children under `variants`, a `src` tree whose source paths sit in `packages` / `repository` -/
+def wTI03 : Ini :=
+  [iniSec "header" [("version", "0.3")],
+   iniSec "product" [("name", "Fedora"), ("short", "F"), ("version", "21")],
+   iniSec "tree" [("arch", "src"), ("build_timestamp", "123"), ("platforms", "src"), ("variants", "Server")],
+   iniSec "variant-Server" [("id", "Server"), ("uid", "Server"), ("name", "Server"), ("type", "variant"), ("packages", "SRPMS"),
+                            ("repository", "."), ("variants", "Server-HA")],
+   iniSec "addon-Server-HA" [("id", "HA"), ("uid", "Server-HA"), ("name", "HA"), ("type", "addon")]]
+
+/-- **faithful and idempotent on a 0.3 witness**: `[product]` becomes the release, the child listed under `variants` is
+found in its `addon-` section, the `src` tree's paths become `source_packages` / `source_repository`; the written
+file is re-read and written again to the same document -/
+theorem C05_ti_upgrade_0_3_witness :
+    (match tiUpgradeCycle wTI03 with
+     | .ok (t, d1, _, d2) =>
+       t.release.name == "Fedora".toList && t.isLayered == false && t.tree.arch == "src".toList
+       && t.variants.flatMap vsum == [("Server".toList, "variant".toList,
+            [("source_packages".toList, "SRPMS".toList), ("source_repository".toList, ".".toList)], ["Server-HA".toList])]
+       && t.headerVersion == TI.currentVersion && d1 == d2
+     | .error _ => false) = true := by decide +kernel
+
+/-- a pre-productmd file (no header): RHEL 5 Server by its family name, absolute image paths -/
+def wTI00 : Ini :=
+  [iniSec "general" [("family", "Red Hat Enterprise Linux Server"), ("version", "5.8"), ("arch", "i386"), ("timestamp", "5"),
+                     ("packagedir", "Server"), ("totaldiscs", "2")],
+   iniSec "images-i386" [("kernel", "/mnt/os/images/vmlinuz")],
+   iniSec "stage2" [("mainimage", "/images/stage2.img")]]
+
+/-- **the pre-productmd heuristics on a witness, and idempotence** (for 0.0 nothing more general is claimed: the
+mapping is the code): family prefix → name / short `RHEL`, variant `Server` from the family, the RHEL 5 addon table for
+i386, repository named after the variant, `/os/` and leading slashes cut from image paths, disc number defaulting to 1 -/
+theorem C05_ti_upgrade_0_0_witness :
+    (match tiUpgradeCycle wTI00 with
+     | .ok (t, d1, _, d2) =>
+       t.release.name == "Red Hat Enterprise Linux".toList && t.release.short == "RHEL".toList && t.release.version == "5.8".toList
+       && t.variants.flatMap vsum == [("Server".toList, "variant".toList,
+            [("packages".toList, "Server".toList), ("repository".toList, "Server".toList)],
+            ["Server-Cluster".toList, "Server-ClusterStorage".toList, "Server-VT".toList])]
+       && (t.variants.flatMap Variant.kids).map Variant.type == ["addon".toList, "addon".toList, "addon".toList]
+       && t.images == [("i386".toList, [("kernel".toList, "images/vmlinuz".toList)])]
+       && t.mainimage == some "images/stage2.img".toList && t.discnum == some 1 && t.totaldiscs == some 2 && d1 == d2
+     | .error _ => false) = true := by decide +kernel
+
+/-- **F12 witness**: the shipped `opensuse` fixture in miniature — a 1.0 file without `[tree]` and without variants —
+loads, and the writer then fails with IndexError (`variants[0]` of an empty list in `General.serialize`) -/
+theorem C05_ti_F12_witness :
+    let d : Ini := [iniSec "header" [("version", "1.0")], iniSec "release" [("name", "openSUSE Leap"), ("version", "15.1")],
+      iniSec "general" [("arch", "x86_64"), ("family", "openSUSE Leap"), ("version", "15.1"), ("platforms", "x86_64,xen")]]
+    (match TI.Legacy.deserialize intOracle d with
+     | .ok t => (match TI.serialize t none with | .error .indexError => true | _ => false) && t.variants.isEmpty
+     | .error _ => false) = true := by decide +kernel
+
+end TreeInfo
 
 end PM
